@@ -240,6 +240,7 @@ func init() {
 			{"limit-exclusive", "a backend scan loop that admits a key equal to the range limit (the first key after the prefix) also requires the prefix", ruleLimitExclusive},
 			{"seek-snapshot-atomic", "a range scan that merges a snapshot of the cache with a scan of the lower store starts the lower scan inside the critical section in which the snapshot was taken (known finding: it does not)", ruleSeekSnapshotAtomic},
 			{"vm-bytes-retained", "a system call or native method that keeps bytes taken from a VM item beyond the call (iterator, struct, map) clones them first: a Buffer stays writable by the contract", func(c *Ctx) { ruleVMBytesRetained(c, "pkg/core/interop/storage", "pkg/core/interop/runtime", "pkg/core/interop/contract", "pkg/core/interop/iterator", "pkg/core/interop/crypto", "pkg/core/native", "pkg/core/interop") }},
+			{"flag-guarded-value", "a cursor variable that travels with a validity flag is read only where the flag is known to be true: after the flag went false the variable still holds the element consumed last", func(c *Ctx) { ruleFlagGuardedValue(c, "pkg/core/storage") }},
 			{"lock-pairing", "in pkg/core/storage every mutex acquired is released on every exit (conditional wrappers analysed for shared stores; the isSync-correlated unlock/relock of persist included)", func(c *Ctx) { lockPairingPkgs(c, []string{stPkg}, storageAssume, 10) }},
 			{"lockset", "every access of mem/stor/ps of a shared MemoryStore/MemCachedStore happens under the store's mutex (write lock for writes) or in a caller-holds-lock function whose call sites hold it; a function that reads a cache map and ps for one answer does so in one critical section; seek gets matching lockers", ruleStoreLockset},
 			{"swap-order", "persist replaces mem/stor/ps only under the write lock inside the plock bracket, installs the tempstore before the lower write, restores ps only after it returned, and merges concurrent writes into both old maps on failure", ruleSwapOrder},
